@@ -7,6 +7,8 @@ from harness import vecgen
 
 FRAME_KINDS = ["float", "int", "bool", "str", "strlong", "date", "datetime", "timedelta", "objint", "objstr", "ustr"]
 KEY_KINDS = ["float", "int", "bool", "str", "strlong", "date", "datetime", "timedelta", "objstr", "ustr"]
+# unsigned keys: 0 is the smallest value and has no negative (sorted descending it must still come last)
+UINT_KINDS = ["uint8", "uint64"]
 NAMES = ["a", "b", "c", "d", "e"]
 
 
@@ -34,6 +36,12 @@ def build(spec, rid="_rid_"):
     if rid:
         data[rid] = np.arange(spec["n"], dtype=np.int64)
     df = di.DataFrame(**data)
+    for c in spec["cols"]:
+        # a fixed-width string column can also enter a frame as a ready DataFrameColumn (`data.a = data.a.astype("U4")`),
+        # which the frame takes as it is; every second such column comes in that way
+        if c["kind"] == "ustr" and (len(c["vals"]) + len(c["name"])) % 2 == 0:
+            n = max([len(v) for v in c["vals"]] + [1])
+            df[c["name"]] = df[c["name"]].astype(f"<U{n}")
     from harness import warm
     if warm.ENABLED:
         warm.frame_through_history(df, skip=(rid,) if rid else ())
@@ -69,7 +77,7 @@ def kind_flags(c):
     else:
         fast = True
     return {"isString": is_string, "fastAsc": fast,
-            "isNumber": kind in ("int", "float", "timedelta"), "isInteger": kind == "int"}
+            "isNumber": kind in ("int", "float", "timedelta", "uint8", "uint64"), "isInteger": kind in ("int", "uint8", "uint64")}
 
 
 def rows_integrity(spec, out_df, rid="_rid_"):
